@@ -79,6 +79,7 @@ def header_stream(ctx, g, body):
 
 def run(ctx):
     g = gtirb_from_repo.load()
+    ctx.scope = {"deny": ("reader:content", "reader-field:", "roundtrip:content", "roundtrip:deep_eq", "roundtrip:aux", "roundtrip:resave", "roundtrip:identity")}
     cov = irgen.Cov(ctx)
     enums = protocheck.schema_enums()
     n_msg, n_files, n_save = (12, 3, 30) if ctx.quick else (250, 30, 600)
@@ -146,7 +147,7 @@ def run(ctx):
     ctx.cov["structural_faults"] = nf
     ctx.cov["traces_validated_against_impl"] = nf
     import loadedworld
-    lh = loadedworld.stream(ctx, g, ctx.rng, 6 if ctx.quick else 150, 12 if ctx.quick else 30, "loaded")
+    lh = loadedworld.stream(ctx, g, ctx.rng, 6 if ctx.quick else 150, 12 if ctx.quick else 30, "loaded", what={"forest", "cache"})
     ctx.cov["histories_continued_from_loaded_files"] = len(lh)
     ctx.cov["rule"] = ("%d valid messages, every single structural fault at every site (%d faulty messages), outcome class against the property's table and against the model reader; "
                        "all header variations; %d saved files accepted; %d of them corrupted at byte level (every truncation, bit flips, substitutions at every position), each outcome "
